@@ -26,7 +26,7 @@ RULE = ('value alphabet: null; integers {0,1,-1,2^63-1,2^63,-2^63,-2^63-1,2^255,
         'every bit and reference consumed to the same logical values in the same order; tinyint form iff the value fits 64 bits (either form for -2^63); '
         'the library parser returns equal values and consumes the slice; the caller\'s values are unchanged and a second serialisation gives the same cell; '
         'reference-written alternative encodings parse to the same values. History search: events ser_stack / ser_value / ser_tuple / deserialize / '
-        'tuple.append on a shared pool, depth 3 (4 thorough). non-trivial = stack with a tuple, slice or continuation; states = distinct stacks / canonical pools; '
+        'tuple.append / tuple.pop / in-place edit of tuple.list on a shared pool, depth 3 (4 thorough). non-trivial = stack with a tuple, slice or continuation; states = distinct stacks / canonical pools; '
         'transitions = library calls; traces = reference decodes and logical comparisons')
 LEVEL_TEXT = ('Bounded-exhaustive: all short stacks over a value alphabet that contains every constructor of VmStackValue, every VmTuple/VmTupleRef shape and '
               'every VmCont kind are serialised by the real code and read back both by an independent interpreter of the TL-B schema and by the library; '
@@ -714,6 +714,9 @@ def h_enabled(pool):
     for i in vals:
         if isinstance(pool[i], VmTuple):
             ev.append(['ser_tuple', i])
+            if len(pool[i].list):
+                ev.append(['t_pop', i])             # the caller shrinks / edits its own tuple through every public way
+                ev.append(['t_edit', i])
             for j in (1, 3, 0):
                 if j < n and j in vals and (j < i or not isinstance(pool[j], VmTuple)):      # never build a cyclic value
                     ev.append(['t_append', i, j])
@@ -741,6 +744,12 @@ def h_apply(pool, ev):
         return c.hash.hex()
     if op == 't_append':
         pool[ev[1]].append(pool[ev[2]])
+        return 'ok'
+    if op == 't_pop':
+        pool[ev[1]].pop()
+        return 'ok'
+    if op == 't_edit':
+        pool[ev[1]].list[0] = 424242
         return 'ok'
     if op == 'deser':
         vals = VmStack.deserialize(pool[ev[1]][2].begin_parse())
@@ -775,11 +784,11 @@ def run_history(rec, hist, check=True):
         except RecursionError as e:
             return pool, ('raises:' + ev[0], f'step {step} {ev}: raised RecursionError')
         except Exception as e:
-            if ev[0] == 't_append':
+            if ev[0] in ('t_append', 't_pop', 't_edit'):
                 raise
             return pool, ('raises:' + ev[0], f'step {step} {ev}: raised {exc_name(e)}: {e}')
         after = h_canon(pool)[:len(before)]
-        if ev[0] == 't_append':
+        if ev[0] in ('t_append', 't_pop', 't_edit'):
             # intended change: exactly tuple ev[1] (and every tuple containing that same object) grows
             continue
         if after != before:
